@@ -42,10 +42,22 @@ var emptyOCSP bool
 func drawChain(c *core.Ctx) ([]lcert, bool) {
 	emptyOCSP = false
 	n := c.Int("chain.n", 1, 4)
+	if c.Chance("chain.long", 1, 12) {
+		// around the CBOR head-size step of the enclosing array (24 items = 23 certificates)
+		n = c.PickInt("chain.longN", 21, 22, 23, 24, 25, 40)
+		c.Probe("chain of 21-40 certificates")
+	}
 	perm := c.Perm("chain.perm", len(fixtures.Leaves)+1)
 	var ch []lcert
 	for i := 0; i < n; i++ {
 		var lc lcert
+		if i >= len(perm) {
+			// (long chains repeat certificates: cross-signed copies)
+			lc.leaf = fixtures.Leaves[i%len(fixtures.Leaves)]
+			lc.der = lc.leaf.DER
+			ch = append(ch, lc)
+			continue
+		}
 		if perm[i] == len(fixtures.Leaves) {
 			// a CA certificate as chain element: EC, RSA or Ed25519 key
 			lc.der = fixtures.Leaves[c.Pick("chain.ca", len(fixtures.Leaves))].CADER
@@ -228,6 +240,34 @@ func TestClean(t *testing.T) {
 						c.Violation("roundtrip", "ReadCertChain/earlier-result-after-later-read", "certificate %d of the first chain changed after another chain was read", i)
 					}
 				}
+			}
+			// history: the caller keeps its chain object, refreshes one field IN PLACE (a new OCSP
+			// response, an SCT list added) and writes it again: the new bytes are the new chain's
+			if c.Oracle("C17") && c.Chance("updateInPlace", 1, 3) {
+				obj := toRepo(ch)
+				var b1, b2 bytes.Buffer
+				c.Guard("CertChain.Write", func() { obj.Write(&b1) })
+				ch2 := append([]lcert(nil), ch...)
+				switch c.Pick("updateInPlace.what", 3) {
+				case 0:
+					ch2[0].ocsp = append([]byte("fresh-"), ch[0].ocsp...)
+					obj[0].OCSPResponse = ch2[0].ocsp
+				case 1:
+					k := c.Pick("updateInPlace.at", len(ch2))
+					ch2[k].sct = []byte("sct-added-later")
+					obj[k].SCTList = ch2[k].sct
+				default:
+					k := c.Pick("updateInPlace.at", len(ch2))
+					other := fixtures.Leaves[c.Pick("updateInPlace.cert", len(fixtures.Leaves))]
+					ch2[k].der = other.DER
+					obj[k].Cert = other.Cert()
+				}
+				var werr error
+				c.Guard("CertChain.Write", func() { werr = obj.Write(&b2) })
+				if werr != nil || !bytes.Equal(b2.Bytes(), refEncode(ch2)) {
+					c.Violation("stale-output", "CertChain.Write", "a chain object updated in place and written again yields bytes that are not the updated chain's (err=%v)", werr)
+				}
+				c.Probe("chain object updated in place between two writes")
 			}
 			// history: the tool's way - one bytes.Buffer is destination and source, reused for the
 			// next chain while the caller still holds the first parsed chain
